@@ -14,3 +14,24 @@ pub fn by_index<'a>(parent: Node<'a, 'a>) -> Option<Node<'a, 'a>> {
 pub fn by_name<'a>(parent: Node<'a, 'a>) -> Option<Node<'a, 'a>> {
     parent.children().find(|n| n.has_tag_name("flag"))
 }
+
+pub struct Name {
+    pub namespace: String,
+    pub local: String,
+}
+
+impl Name {
+    pub fn tag_name(&self) -> &str {
+        &self.local
+    }
+}
+
+/// BAD (C18-R5): two names are taken for the same when only their local parts agree
+pub fn same_local(a: &Name, b: &Name) -> bool {
+    a.tag_name() == b.tag_name()
+}
+
+/// OK: namespace and local part
+pub fn same_name(a: &Name, b: &Name) -> bool {
+    a.namespace == b.namespace && a.local == b.local
+}
